@@ -390,11 +390,16 @@ def validate_traces(wd, trace_module, traces, defs, cfg_lines, timeout=3600, chu
             pos = k + len(tup)
             v = tlaval.parse(tup)
             tid = v[1]
-            results[base + tid - 1] = {
+            new = {
                 "consumed": v[2],
                 "viol": sorted((x[0], x[1]) for x in v[3]),
                 "drift": sorted((x[0], x[1]) for x in v[4]),
             }
+            old = results[base + tid - 1]
+            # a trace specification may branch where something was not logged: the trace is judged by its best explanation
+            rank = lambda r: (len(r["viol"]), len(r["drift"]), -r["consumed"])
+            if old is None or rank(new) < rank(old):
+                results[base + tid - 1] = new
         shutil.rmtree(sub, ignore_errors=True)
     missing = [i for i, r in enumerate(results) if r is None]
     if missing:
